@@ -401,8 +401,8 @@ func (g *Gen) BidExpire() txgen.Tx {
 	}
 	var s *sim.User
 	stag := ""
-	switch g.Uniform(4, "expire-signer") {
-	case 0:
+	switch g.Uniform(5, "expire-signer") {
+	case 0, 1:
 		v := g.val("expire-val")
 		// prefer a validator whose key account can pay the fee
 		for _, x := range w.G.U.Vals {
@@ -417,7 +417,7 @@ func (g *Gen) BidExpire() txgen.Tx {
 			tx.Tags = []string{"addr-valkey", "cur-ok", "amt-ok"}
 			return g.note(tx)
 		}
-	case 1:
+	case 2:
 		s, stag = g.val("expire-val").Stake, "signer-valstake"
 	default:
 		s, stag = g.bidUser("expire-user"), "signer-stranger"
